@@ -66,7 +66,8 @@ fn line_diff(old: &str, new: &str) -> (r: Vec<Range<usize>>)
         file_numbered(*patched_file), // [Db.pre.lines_numbered]
     ensures
         file_wf(*patched_file) ==> exists|origin: Seq<Orig>| db_post(*patched_file, r@, origin), // [Db.post.entries]
-        file_wf(*patched_file) ==> strictly_sorted(r@), // [Db.post.strictly_sorted]   (KF1: no carve-out)
+        // KF1: no carve-out (difflines.rs: `&& kf1_carve_out(*patched_file)`)
+        file_wf(*patched_file) ==> strictly_sorted(r@), // [Db.post.strictly_sorted]
 //@edit rule=E16 find=<<let mut prev_line = None;>>
 let mut prev_line: Option<&Line> = None;
 //@edit rule=ghost before=<<for hunk in patched_file.hunks()>>
@@ -174,7 +175,8 @@ let ghost h = ith.index@ as int;
             }
             // checked in a scope of its own, so that the (failing) clause is not assumed afterwards
             assert(true) by {
-                assert(post_deletion_new_numbering(f, line_changes@, origin)); // [Db.post.deletion_new_numbering]   (KF1: no carve-out)
+                // KF1: no carve-out (difflines.rs: inside `if carve { .. }`)
+                assert(post_deletion_new_numbering(f, line_changes@, origin)); // [Db.post.deletion_new_numbering]
             }
             assert(db_post(f, line_changes@, origin));
         }
